@@ -311,6 +311,42 @@ type encoder struct {
 
 // findEncoder locates the remaining-length encoding loop in fn:
 // l := uint(size); for ; l > 0x7f; l >>= 7 { append(byte(l|0x80)) }; append(byte(l))
+// appendOfElem: the append call one of whose variadic elements is v
+// (append(s, v) or append(s, a, v, b)); nil when v is not used that way.
+func appendOfElem(v ssa.Value) *ssa.Call {
+	if v.Referrers() == nil {
+		return nil
+	}
+	for _, r := range *v.Referrers() {
+		st, ok := r.(*ssa.Store)
+		if !ok || st.Val != v {
+			continue
+		}
+		ia, ok := st.Addr.(*ssa.IndexAddr)
+		if !ok {
+			continue
+		}
+		al, ok := ia.X.(*ssa.Alloc)
+		if !ok || al.Referrers() == nil {
+			continue
+		}
+		for _, ar := range *al.Referrers() {
+			sl, ok := ar.(*ssa.Slice)
+			if !ok || sl.Referrers() == nil {
+				continue
+			}
+			for _, sr := range *sl.Referrers() {
+				if call, ok := sr.(*ssa.Call); ok {
+					if bl, isB := call.Call.Value.(*ssa.Builtin); isB && bl.Name() == "append" && len(call.Call.Args) == 2 && call.Call.Args[1] == ssa.Value(sl) {
+						return call
+					}
+				}
+			}
+		}
+	}
+	return nil
+}
+
 func (c *Ctx) findEncoder(fn *ssa.Function) (*ssa.Phi, ssa.Value, string) {
 	for _, b := range c.regionBlocks(fn) {
 		for _, ins := range b.Instrs {
@@ -338,6 +374,22 @@ func (c *Ctx) findEncoder(fn *ssa.Function) (*ssa.Phi, ssa.Value, string) {
 					if x.X == phi && (x.Op == token.GTR && isK(x.Y, 0x7f) || x.Op == token.GEQ && isK(x.Y, 0x80)) {
 						condOK = true
 					}
+					// the same test as the exit condition (for { if l <= 0x7f { break } … }):
+					// the continuation byte is emitted on the branch where it is false
+					if x.X == phi && (x.Op == token.LEQ && isK(x.Y, 0x7f) || x.Op == token.LSS && isK(x.Y, 0x80)) && x.Referrers() != nil {
+						for _, rr := range *x.Referrers() {
+							iff, isIf := rr.(*ssa.If)
+							if !isIf || len(iff.Block().Succs) != 2 {
+								continue
+							}
+							cont := iff.Block().Succs[1]
+							for _, r2 := range *phi.Referrers() {
+								if or, isOr := r2.(*ssa.BinOp); isOr && or.Op == token.OR && isK(or.Y, 0x80) && cont.Dominates(or.Block()) {
+									condOK = true
+								}
+							}
+						}
+					}
 					if x.Op == token.OR && x.X == phi && isK(x.Y, 0x80) {
 						bodyOK = true
 					}
@@ -355,6 +407,47 @@ func (c *Ctx) findEncoder(fn *ssa.Function) (*ssa.Phi, ssa.Value, string) {
 				why = "continuation byte is not l|0x80"
 			case !tailOK:
 				why = "final byte is not byte(l)"
+			}
+			// both bytes go onto the packet being built: the continuation byte is
+			// appended to the loop-carried slice (whose other edge is that very
+			// append), the final byte to the same slice
+			if why == "" {
+				var bodyApp, tailApp *ssa.Call
+				for _, r := range *phi.Referrers() {
+					switch x := r.(type) {
+					case *ssa.BinOp:
+						if x.Op == token.OR && x.X == phi && isK(x.Y, 0x80) && x.Referrers() != nil {
+							for _, rr := range *x.Referrers() {
+								if cv, ok := rr.(*ssa.Convert); ok {
+									if a := appendOfElem(cv); a != nil {
+										bodyApp = a
+									}
+								}
+							}
+						}
+					case *ssa.Convert:
+						if a := appendOfElem(x); a != nil {
+							tailApp = a
+						}
+					}
+				}
+				if bodyApp != nil && tailApp != nil {
+					base, isPhi := stripConv(bodyApp.Call.Args[0]).(*ssa.Phi)
+					carried := false
+					if isPhi {
+						for _, e := range base.Edges {
+							if stripConv(e) == ssa.Value(bodyApp) {
+								carried = true
+							}
+						}
+					}
+					switch {
+					case !isPhi || !carried:
+						why = "the continuation byte is appended to " + Expr(bodyApp.Call.Args[0]) + ", not to the packet being built (the slice the loop carries)"
+					case stripConv(tailApp.Call.Args[0]) != ssa.Value(base):
+						why = "the final length byte is appended to " + Expr(tailApp.Call.Args[0]) + ", not to the packet the continuation bytes went to"
+					}
+				}
 			}
 			size := stripConv(init)
 			// the encoder may live in a helper extracted from fn: map its
